@@ -814,6 +814,12 @@ def plan(pid: str, tier: str, rng: random.Random) -> list[dict]:
         for n in ("mutex_pair", "choice3", "mutex_suspend", "diamond"):
             for at in range(0, 18, 3):
                 add(kind="inject", what="maintenance", at=at, spec=fam[n], name=n, policy="fifo")
+        # sweeps around a signal to a suspended (or not yet suspended) stage and around an operator restart
+        for at in range(0, 10):
+            add(kind="inject", what="signal", stage=0, signame=1, persistent=True, at=at, recover_at=[at, at + 1, at + 2],
+                spec=fam["suspend"], name="suspend", policy="fifo")
+        for at in range(4, 14, 2):
+            add(kind="inject", what="restart", at=at, stage=0, recover_at=[at, at + 1, at + 2], spec=fam["fail_terminal"], name="fail_terminal", policy="fifo")
         # sweeps around a pause / unpause: while tasks are parked, right after the unpause request and while ResumeStage
         # is being handled (each of these handlers must stay one commit: a sweep in between must find nothing to repair)
         for n in ("chain3", "multitask", "poll", "diamond"):
